@@ -39,7 +39,7 @@ var c14EntryNames = []string{"ToObject", "Decoder.Decode", "Decoder.ReadFrom(dir
 
 func c14Domain() Domain {
 	return Domain{EmptyStringElems: true, NilPtrElems: true, ZeroTimeElems: true, BigStrings: true, BigBinaries: true,
-		FarDates: true, AllDoubles: true, MaxListLen: 10, MaxMapLen: 4}
+		FarDates: true, AllDoubles: true, OddMaps: true, MaxListLen: 10, MaxMapLen: 4}
 }
 
 // ---- calibration of the time and memory budgets on undamaged streams ---------------------------
@@ -620,10 +620,13 @@ func runC14(ch *Choices, cfg *RunCfg) (o *Outcome) {
 	if n > limit {
 		stride = n/limit + 1
 	}
-	for _, kind := range []TFaultKind{TCut, TReset} {
+	for _, kind := range []TFaultKind{TCut, TReset, TStall} {
 		for k := 0; k < n; k++ {
 			if stride > 1 && k > 40 && k < n-40 && k%stride != 0 {
 				continue
+			}
+			if kind == TStall && k%3 != 0 {
+				continue // the silent-peer tail at every third offset
 			}
 			if pinKind != "" && !(pinKind == kind.String() && pinArg == k) {
 				continue
